@@ -80,6 +80,12 @@ func envU64(k string, def uint64) uint64 {
 
 // scenarioFor regenerates the scenario of (base seed, property, worker, index).
 func scenarioFor(pd *PropDef, base uint64, worker, index int, tier string) *Scenario {
+	if tier == "thorough" && pd.Sweep != nil && worker%2 == 0 {
+		// half of the thorough workers sweep fault positions over shared workloads
+		S := pd.SweepN
+		r := NewPRNG(Mix(base, pd.Num, uint64(worker), uint64(index/S), 0x5eeb))
+		return pd.Sweep(r, index%S, S)
+	}
 	r := NewPRNG(Mix(base, pd.Num, uint64(worker), uint64(index)))
 	return pd.Gen(r, tier)
 }
